@@ -51,6 +51,8 @@ var Mutants = map[string][]Mutant{
 		{"Paths.Settle ignores its rule", "path_intersection.go", `return bentleyOttmann\(ps, nil, opSettle, fillRule\)`, `return bentleyOttmann(ps, nil, opSettle, NonZero)`, "E9.wrapper"},
 	},
 	"C03": {
+		{"circular arc flattener drops the rotation", "path_util.go", `\t\ttheta0 \+= phi\n\t\ttheta1 \+= phi\n\n\t\t// draw line segments from arc\+tolerance`, "\n\t\t// draw line segments from arc+tolerance", "E3.arc-angle-frame"},
+		{"arc flattener loses its tolerance clamp", "path_util.go", `\ttolerance = math\.Max\(tolerance, Epsilon\) // a zero tolerance gives an infinite number of segments\n`, "", "E4.step-progress"},
 		{"quadratic flattener loses its tolerance clamp", "path_util.go", `(2005,  https://www\.sciencedirect\.com/science/article/pii/S0097849305001287\n)\ttolerance = math\.Max\(tolerance, Epsilon\)[^\n]*\n(\tt := 0\.0\n\tp := &Path\{\}\n\tp\.MoveTo\(p0\.X, p0\.Y\)\n\tfor t < 1\.0 \{\n\t\tD := p1\.Sub\(p0\))`, "${1}${2}", "E4.step-progress"},
 		{"cubic stroker loses its tolerance clamp", "path_util.go", `\ttolerance = math\.Max\(tolerance, Epsilon\) // prevent infinite loop if user sets tolerance to zero\n\n`, "\n", "E4.step-progress"},
 		{"replace keeps the pen from before the rest is joined back", "path.go", `\t\t\ti = len\(p\.d\)\n\t\t\tp = p\.Join\(r\) // join the rest of the base path\n\t\t\} else \{\n\t\t\ti \+= cmdLen\(cmd\)\n\t\t\}\n\t\tstart = Point\{p\.d\[i-3\], p\.d\[i-2\]\}\n`, "\t\t\ti = len(p.d)\n\t\t\tstart = end\n\t\t\tp = p.Join(r) // join the rest of the base path\n\t\t} else {\n\t\t\ti += cmdLen(cmd)\n\t\t\tstart = Point{p.d[i-3], p.d[i-2]}\n\t\t}\n", "E2.pen-reread"},
@@ -60,6 +62,8 @@ var Mutants = map[string][]Mutant{
 		{"ToPDF forgets ReplaceArcs", "path.go", `\tp = p\.ReplaceArcs\(\)\n\n\tsb := strings\.Builder\{\}\n\tvar x, y float64\n\tfor i := 0; i < len\(p\.d\); \{\n\t\tcmd := p\.d\[i\]\n\t\tswitch cmd \{\n\t\tcase MoveToCmd:\n\t\t\tx, y = p\.d\[i\+1\], p\.d\[i\+2\]\n\t\t\tfmt\.Fprintf\(&sb, " %v %v m"`, "\tsb := strings.Builder{}\n\tvar x, y float64\n\tfor i := 0; i < len(p.d); {\n\t\tcmd := p.d[i]\n\t\tswitch cmd {\n\t\tcase MoveToCmd:\n\t\t\tx, y = p.d[i+1], p.d[i+2]\n\t\t\tfmt.Fprintf(&sb, \" %v %v m\"", "E10.consumer"},
 	},
 	"C04": {
+		{"join test compares the end normals of both segments", "path_stroke.go", `if !cur\.n1\.Equals\(next\.n0\) \{`, "if !cur.n1.Equals(next.n1) {", "E11.junction-pairing"},
+		{"offset radii passed untested to the radii correction", "path_stroke.go", `\t\t\tif !Equal\(cur\.rx-dr, 0\.0\) && !Equal\(cur\.ry-dr, 0\.0\) \{\n(\t\t\t\tlLambda = [^\n]*\n)\t\t\t\}\n`, "${1}", "E4.radii-nonzero"},
 		{"offset keeps the arc rotation in radians", "path_stroke.go", `(?s)rot:    phi \* 180\.0 / math\.Pi,(.*?)cur\.rot\*math\.Pi/180\.0, rEnd\)(.*?)cur\.rot\*math\.Pi/180\.0, lEnd\)`, "rot:    phi,${1}cur.rot, rEnd)${2}cur.rot, lEnd)", "E8.units"},
 		{"Offset uses the orientation of the first sub-path", "path_stroke.go", `\t\tif pi\.Closed\(\) && !FastStroke \{\n\t\t\tif pi\.CCW\(\) \{\n\t\t\t\tr = r\.Settle\(Positive\)`, "\t\tif pi.Closed() && !FastStroke {\n\t\t\tif p.CCW() {\n\t\t\t\tr = r.Settle(Positive)", "E11.subpath-loop"},
 		{"zero-length Close leaves the sub-path open", "path_stroke.go", `(\t\tcase CloseCmd:\n\t\t\tend = Point\{p\.d\[i\+1\], p\.d\[i\+2\]\}\n)(\t\t\tif !Equal\(start\.X, end\.X\) \|\| !Equal\(start\.Y, end\.Y\) \{)`, "${1}\t\t\tif Equal(start.X, end.X) && Equal(start.Y, end.Y) {\n\t\t\t\tbreak\n\t\t\t}\n${2}", "E11.cap-join"},
@@ -68,6 +72,7 @@ var Mutants = map[string][]Mutant{
 		{"closed flag also set by MoveTo", "path_stroke.go", `\t\tcase MoveToCmd:\n\t\t\tend = Point\{p\.d\[i\+1\], p\.d\[i\+2\]\}\n\t\tcase LineToCmd:\n\t\t\tend = Point\{p\.d\[i\+1\], p\.d\[i\+2\]\}\n\t\t\tn := end`, "\t\tcase MoveToCmd:\n\t\t\tend = Point{p.d[i+1], p.d[i+2]}\n\t\t\tclosed = false\n\t\tcase LineToCmd:\n\t\t\tend = Point{p.d[i+1], p.d[i+2]}\n\t\t\tn := end", "E11.cap-join"},
 	},
 	"C05": {
+		{"quad cut loop carries the relative parameter", "path.go", `(?s)(\t\t\t\t\tr0, r1, r2 := start, cp, end\n.*?)\t\t\t\t\t\tt := invL\(ts\[j\] - T\)\n\t\t\t\t\t\ttsub := \(t - t0\) / \(1\.0 - t0\)\n\t\t\t\t\t\tt0 = t\n`, "${1}\t\t\t\t\t\ttsub := (invL(ts[j]-T) - t0) / (1.0 - t0)\n\t\t\t\t\t\tt0 = tsub\n", "E11.cut-carried"},
 		{"SplitAt's line case leaves the iteration early without advancing", "path.go", `\t\t\t\t\tif Tcurve < T\+dT \{\n\t\t\t\t\t\tq\.LineTo\(end\.X, end\.Y\)\n\t\t\t\t\t\}\n\t\t\t\t\tT \+= dT\n`, "\t\t\t\t\tif Tcurve < T+dT {\n\t\t\t\t\t\tq.LineTo(end.X, end.Y)\n\t\t\t\t\t} else {\n\t\t\t\t\t\ti += cmdLen(cmd)\n\t\t\t\t\t\tstart = end\n\t\t\t\t\t\tcontinue\n\t\t\t\t\t}\n\t\t\t\t\tT += dT\n", "E2.accumulator-advance"},
 		{"SplitAt copies an uncut quad without adding its length", "path.go", `\t\t\t\tif j == len\(ts\) \{\n\t\t\t\t\tq\.QuadTo\(cp\.X, cp\.Y, end\.X, end\.Y\)`, "\t\t\t\tif j == len(ts) || T+quadraticBezierLength(start, cp, end) < ts[j] {\n\t\t\t\t\tq.QuadTo(cp.X, cp.Y, end.X, end.Y)", "E2.accumulator-advance"},
 		{"SplitAt's line case advances the position only when it cut", "path.go", `\t\t\t\t\tif Tcurve < T\+dT \{\n\t\t\t\t\t\tq\.LineTo\(end\.X, end\.Y\)\n\t\t\t\t\t\}\n\t\t\t\t\tT \+= dT\n`, "\t\t\t\t\tif Tcurve < T+dT {\n\t\t\t\t\t\tq.LineTo(end.X, end.Y)\n\t\t\t\t\t} else {\n\t\t\t\t\t\tT += dT\n\t\t\t\t\t}\n", "E2.accumulator-advance"},
@@ -79,6 +84,8 @@ var Mutants = map[string][]Mutant{
 		{"arc cut relative to the arc start", "path.go", `ellipseSplit\(rx, ry, phi, cx, cy, startTheta, theta2, theta\)`, `ellipseSplit(rx, ry, phi, cx, cy, theta1, theta2, theta)`, "E11.cut-carried"},
 	},
 	"C06": {
+		{"ellipse hit flagged tangent by the value of the root", "path_intersection_util.go", `\t\ttangent := len\(roots\) == 1 // the line touches the ellipse[^\n]*\n`, "\t\ttangent := Equal(root, 0.0)\n", "E9.tangent-from-roots"},
+		{"Filling prunes enclosers by the fast bounds of the inner sub-path", "path.go", `(?s)(func \(p \*Path\) Filling\(fillRule FillRule\) \[\]bool \{.*?)\t\t\tif i == j \{`, "${1}\t\t\tif i == j || !pj.FastBounds().Contains(pi.FastBounds()) {", "E3.containment-filter"},
 		{"windings counts interior tangent hits", "path.go", `\t\t\tif !z\.Tangent \{\n\t\t\t\tn \+= d`, "\t\t\tif !z.Same {\n\t\t\t\tn += d", "E9.tangent-not-counted"},
 		{"Crossings counts interior tangent hits", "path.go", `\t\t\t\tif !z\.Tangent \{\n\t\t\t\t\tni\+\+`, "\t\t\t\tif !z.Same {\n\t\t\t\t\tni++", "E9.tangent-not-counted"},
 		{"Crossings pairs overlapping hits", "path.go", `\t\t\t\} else if z\.Same \{\n\t\t\t\tcontinue\n\t\t\t\} else if`, "\t\t\t} else if", "E9.overlap-skipped"},
@@ -120,6 +127,8 @@ var Mutants = map[string][]Mutant{
 		{"quad case reads offset 5", "path.go", `\t\tcase QuadToCmd:\n\t\t\tcp := Point\{p\.d\[i\+1\], p\.d\[i\+2\]\}\n\t\t\tend = Point\{p\.d\[i\+3\], p\.d\[i\+4\]\}\n\t\t\txmin = math\.Min\(xmin, math\.Min\(cp\.X, end\.X\)\)`, "\t\tcase QuadToCmd:\n\t\t\tcp := Point{p.d[i+1], p.d[i+2]}\n\t\t\tend = Point{p.d[i+5], p.d[i+6]}\n\t\t\txmin = math.Min(xmin, math.Min(cp.X, end.X))", "E2.layout"},
 	},
 	"C10": {
+		{"radii check rotates the chord by +phi", "path_util.go", `(?s)(func ellipseRadiiCorrection\(.*?)\tx1p := \(cosphi\*diff\.X \+ sinphi\*diff\.Y\) / 2\.0\n\ty1p := \(-sinphi\*diff\.X \+ cosphi\*diff\.Y\) / 2\.0\n`, "${1}\tx1p := (cosphi*diff.X - sinphi*diff.Y) / 2.0\n\ty1p := (sinphi*diff.X + cosphi*diff.Y) / 2.0\n", "E3.ellipse-frame"},
+		{"CopyTo dereferences the nil path it tests for", "path.go", `\tif q == nil \{\n\t\tq = &Path\{\}\n\t\}\n\tif len\(q\.d\) < len\(p\.d\) \{`, "\tif q == nil || len(q.d) < len(p.d) {", "E4.nil-branch-deref"},
 		{"Append adopts its first non-empty argument", "path.go", `\t\tif !q\.Empty\(\) \{\n\t\t\tp\.d = append\(p\.d, q\.d\.\.\.\)\n\t\t\}\n`, "\t\tif q.Empty() {\n\t\t\tcontinue\n\t\t} else if len(p.d) == 0 {\n\t\t\tp = q\n\t\t\tcontinue\n\t\t}\n\t\tp.d = append(p.d, q.d...)\n", "E1.no-mutation"},
 		{"LineTo picks the axis on signed components", "path.go", `if math\.Abs\(da\.Y\) < math\.Abs\(da\.X\) \{`, "if da.Y < da.X {", "E3.dominant-axis"},
 		{"Join's close repair runs past the sub-path", "path.go", `\t\tif cmd == MoveToCmd \{\n\t\t\tbreak\n\t\t\} else if cmd == CloseCmd \{\n\t\t\tp\.d\[i\+1\] = end\.X`, "\t\tif cmd == CloseCmd {\n\t\t\tp.d[i+1] = end.X", "E2.close-rewrite"},
@@ -221,6 +230,7 @@ var Mutants = map[string][]Mutant{
 		{"Text.Heights uses the first line's top", "text.go", `\t_, ascent, _, _ := firstLine\.Heights\(t\.WritingMode\)`, "\tascent, _, _, _ := firstLine.Heights(t.WritingMode)", "E3.line-heights"},
 	},
 	"C17": {
+		{"forced break deactivates feasible nodes only", "text/linebreak.go", `\t\t\tif ratio < -1\.0 \|\| item\.Type == PenaltyType && item\.Penalty <= -Infinity \{\n\t\t\t\tlb\.activeNodes\.Remove\(active\)\n\t\t\t\tlb\.inactiveNodes\.Push\(active\)\n\t\t\t\}\n`, "\t\t\tif ratio < -1.0 || ratio <= tolerance && item.Type == PenaltyType && item.Penalty <= -Infinity {\n\t\t\t\tlb.activeNodes.Remove(active)\n\t\t\t\tlb.inactiveNodes.Push(active)\n\t\t\t}\n", "E4.forced-break-deactivates"},
 		{"break list sized before looseness picks the node", "text/linebreak.go", `(?s)\tif looseness != 0 \{\n\t\ts := 0\n\t\tk := b\.Line\n(.*?)breaks := make\(\[\]\*Breakpoint, b\.Line\+1\)`, "\tk := b.Line\n\tif looseness != 0 {\n\t\ts := 0\n${1}breaks := make([]*Breakpoint, k+1)", "E4.alloc-covers-index"},
 		{"break list one entry short", "text/linebreak.go", `breaks := make\(\[\]\*Breakpoint, b\.Line\+1\)`, "breaks := make([]*Breakpoint, b.Line)", "E4.alloc-covers-index"},
 		{"Linebreak looks at items[b-1] unguarded", "text/linebreak.go", `if 0 < b && lb\.items\[b-1\]\.Type == BoxType`, `if lb.items[b-1].Type == BoxType`, "E4.neighbour-guard"},
@@ -238,6 +248,10 @@ var Mutants = map[string][]Mutant{
 		{"vertical fonts written as horizontal", "renderers/pdf/writer.go", `w\.writeFonts\(w\.fontsV, true\)`, `w.writeFonts(w.fontsV, false)`, "E5.fontmaps"},
 	},
 	"C19": {
+		{"style-sheet rules applied before the attributes", "svg.go", `(?s)(\t// apply presentation attributes in order\n\tfor _, prop := range props \{\n\t\tif prop\.key != "style" \{\n\t\t\tsvg\.setAttribute\(prop\.key, prop\.val\)\n\t\t\}\n\t\}\n\n)(\t// apply CSS from <style>\n.*?\n\t\}\n\n)(\t// apply the style attribute)`, "${2}${1}${3}", "E11.svg-cascade"},
+		{"transform names trimmed of white space only", "svg.go", "fun = strings\\.ToLower\\(strings\\.Trim\\(v\\[j:i\\], \" \\\\t\\\\r\\\\n,\"\\)\\)", "fun = strings.ToLower(strings.TrimSpace(v[j:i]))", "E11.svg-transform-separator"},
+		{"importer loses its fill-rule case", "svg.go", `\tcase "fill-rule":\n\t\tif val == "evenodd" \{\n\t\t\tsvg\.ctx\.SetFillRule\(EvenOdd\)\n\t\t\} else if val == "nonzero" \{\n\t\t\tsvg\.ctx\.SetFillRule\(NonZero\)\n\t\t\}\n`, "", "E11.svg-vocabulary"},
+		{"rgba alpha parsed as an integer component", "svg.go", `col\.A = svg\.parseAlphaComponent\(comps\[3\]\)`, "col.A = svg.parseColorComponent(comps[3])", "E11.svg-color-grammar"},
 		{"viewBox width read as max-x", "svg.go", `m := Identity\.Scale\(width/viewbox\[2\], height/viewbox\[3\]\)`, "m := Identity.Scale(width/(viewbox[2]-viewbox[0]), height/viewbox[3])", "E11.viewbox-extent"},
 		{"matrix() transform read row by row", "svg.go", `m = m\.Mul\(Matrix\{\{d\[0\], d\[2\], d\[4\]\}, \{d\[1\], d\[3\], d\[5\]\}\}\)`, "m = m.Mul(Matrix{{d[0], d[1], d[4]}, {d[2], d[3], d[5]}})", "E11.svg-transform"},
 		{"stroke-dasharray refills the inherited slice", "svg.go", `\t\t\tsvg\.ctx\.Style\.Dashes = svg\.parsePoints\(val\)\n`, "\t\t\tsvg.ctx.Style.Dashes = append(svg.ctx.Style.Dashes[:0], svg.parsePoints(val)...)\n", "E11.state-slice-reuse"},
